@@ -10,6 +10,7 @@ from .layout import ( ParserLayout, ProducerLayout, Seq, producer_branches, bran
                       resolve_struct_lits, atom_eq )
 from .rules_paths import class_consts_env, SERVICE_CLASSES
 from . import spec
+from .cfg import CFG
 
 
 class L:
@@ -78,19 +79,58 @@ def truthiness_guards( src, fn, art='data' ):
     return out
 
 
+NUMERIC_CODECS = ( 'USINT', 'UINT', 'UDINT', 'ULINT', 'SINT', 'INT', 'DINT', 'LINT', 'WORD', 'DWORD', 'BOOL', 'REAL', 'LREAL', 'UINT_network', 'UDINT_network', 'INT_network' )
+
+
+def lossy_defaults( fn ):
+    """arguments of numeric <TYPE>.produce( ... ) calls that replace a falsy field value by a non-zero constant: `x or C`, `x if x else C`
+    (a legal 0 is then encoded as C): -> [ ( call, default ) ]"""
+    out = []
+    for c in ast.walk( fn ):
+        if not ( isinstance( c, ast.Call ) and call_name( c ).endswith( '.produce' ) and c.args and call_name( c ).split( '.' )[-2] in NUMERIC_CODECS ):
+            continue
+        a = c.args[0]
+        dflt = None
+        if isinstance( a, ast.BoolOp ) and isinstance( a.op, ast.Or ) and len( a.values ) >= 2:
+            dflt = try_fold( a.values[-1] )
+        elif isinstance( a, ast.IfExp ) and ( txt( a.test ) == txt( a.body ) or ( isinstance( a.test, ast.UnaryOp ) and isinstance( a.test.op, ast.Not ) and txt( a.test.operand ) == txt( a.orelse ))):
+            dflt = try_fold( a.orelse if txt( a.test ) == txt( a.body ) else a.body )
+        if isinstance( dflt, ( int, float )) and not isinstance( dflt, bool ) and dflt != 0:
+            out.append(( c, dflt ))
+    return out
+
+
+@rule( 'L-DEFAULT', props=( 'C01', 'C14' ), floor=20 )
+def l_default( ctx ):
+    """every produce() of the codec modules: a numeric field is never emitted through a truthiness default (`x or C`, `if x:`) - the value 0
+    is legal on the wire and must be re-produced as 0; defaults are selected by PRESENCE of the field"""
+    res = Result( 'L-DEFAULT' )
+    n = 0
+    for rel in ( 'server/enip/parser.py', 'server/enip/device.py', 'server/enip/logix.py', 'server/enip/defaults.py' ):
+        src = ctx.src( rel )
+        for qn, defs in sorted( src.defs.items()):
+            fn = defs[-1]
+            if not isinstance( fn, ast.FunctionDef ) or fn.name not in ( 'produce', ) and not fn.name.endswith( '_encode' ):
+                continue
+            n += 1
+            bad = False
+            for c, dflt in lossy_defaults( fn ):
+                bad = True
+                res.bad( src, c, c, 'a field value of 0 is encoded as %r: `x or default` (or `x if x else default`) selects the default by truthiness, but 0 is a legal value of this field and parse( produce( x )) must return it - select the default by presence ( `x if \'field\' in data else default` )' % dflt, func=qn )
+            for i, field in truthiness_guards( src, fn ):
+                bad = True
+                res.bad( src, i, 'if %s: ... produce( %s )' % ( norm_text( i.test ), field ),
+                         'the optional field %r is emitted only when it is truthy: a parsed message whose %s is 0 is re-produced without it (the parser decides by presence of input)' % ( field, field ), func=qn )
+            if not bad:
+                res.ok( src, fn, '%s: no numeric field is emitted through a truthiness default' % qn, nontrivial=False )
+    return res
+
+
 @rule( 'L-AGREE', props=( 'C01', 'C14' ), floor=24 )
 def l_agree( ctx ):
     """for every registered service: each layout the parser accepts is one the producer emits, and each layout the producer emits (under recognised guards) is one the parser accepts - same order, width, signedness, byte order, data path, pads, guards"""
     res = Result( 'L-AGREE' )
-    # optional integer fields are guarded by presence, not by truthiness (0 is a legal value and must be re-produced)
     seen_fn = set()
-    for e in service_layouts( ctx ):
-        if id( e['pfn'] ) in seen_fn:
-            continue
-        seen_fn.add( id( e['pfn'] ))
-        for i, field in truthiness_guards( e['src'], e['pfn'] ):
-            res.bad( e['src'], i, 'if %s: ... produce( %s )' % ( norm_text( i.test ), field ),
-                     'the optional field %r is emitted only when it is truthy: a parsed message whose %s is 0 is re-produced without it (the parser decides by presence of input)' % ( field, field ), func=e['cls'] + '.produce' )
     # list accumulators are created per parse: a move_if initializer must not be a shared mutable literal
     g = grammar_of( ctx )
     for label, root in sorted( g.all_roots().items() ):
@@ -657,4 +697,76 @@ def l_codec( ctx ):
         res.ok( src, fn, 'enip_encode: length field = len( data.input ), payload = data.input' )
     else:
         res.bad( src, fn, 'enip_encode length/payload', 'the header length must be the length of the payload appended', func='enip_encode' )
+    return res
+
+
+@rule( 'K-NCPSTATE', props=( 'C01', 'C14' ), floor=2 )
+def k_ncpstate( ctx ):
+    """defaults.Connection keeps its parameters as the coupled pair ( _NCP, _large ): every property that decodes _NCP reads _large.  A method
+    that changes one of the two must not read a decoding property until the other has been stored as well (typestate over the method's CFG),
+    and must leave the pair consistent."""
+    res = Result( 'K-NCPSTATE' )
+    src = ctx.src( 'server/enip/defaults.py' )
+    cd = src.get( 'Connection' )
+    # derived readers: properties / methods of the class whose body reads both self._NCP and self._large (transitively through other readers)
+    fns = { f.name: f for f in cd.body if isinstance( f, ast.FunctionDef ) }
+    reads = {}
+    for f in cd.body:
+        if isinstance( f, ast.FunctionDef ) and not any( isinstance( d, ast.Attribute ) and d.attr == 'setter' for d in f.decorator_list ):
+            reads.setdefault( f.name, set()).update( a.attr for a in ast.walk( f ) if isinstance( a, ast.Attribute ) and dotted( a.value ) == 'self' and isinstance( a.ctx, ast.Load ))
+    changed = True
+    while changed:
+        changed = False
+        for nme, rs in reads.items():
+            for r in list( rs ):
+                if r in reads and r != nme and not reads[r] <= rs:
+                    rs |= reads[r]; changed = True
+    decoders = { n for n, rs in reads.items() if { '_NCP', '_large' } <= rs and n != '__init__' }
+    if 'decoding' not in decoders:
+        raise AnalysisError( 'defaults.Connection: the decoding property (reads _NCP under _large) not found' )
+    n = 0
+    for f in cd.body:
+        if not isinstance( f, ast.FunctionDef ) or f.name == '__init__':
+            continue
+        stores = [ s for s in ast.walk( f ) if isinstance( s, ( ast.Assign, ast.AugAssign )) and any(
+            dotted( t ) in ( 'self._NCP', 'self._large' ) for t in ( s.targets if isinstance( s, ast.Assign ) else [ s.target ] )) ]
+        if not stores:
+            continue
+        n += 1
+        cfg = CFG( f )
+        def transfer( nd, label, st ):
+            if label == 'exc':
+                return st
+            if nd.kind == 'stmt' and isinstance( nd.stmt, ( ast.Assign, ast.AugAssign )):
+                for t in ( nd.stmt.targets if isinstance( nd.stmt, ast.Assign ) else [ nd.stmt.target ] ):
+                    d = dotted( t )
+                    if d == 'self._NCP':
+                        st = st | { 'ncp' }
+                    elif d == 'self._large':
+                        st = st | { 'large' }
+                if st == frozenset( [ 'ncp', 'large' ] ):
+                    st = frozenset()
+            return st
+        state = cfg.forward( frozenset(), transfer, lambda a, b: a | b )
+        bad = False
+        for nd in cfg.nodes:
+            own = nd.own()
+            if own is None or nd not in state:
+                continue
+            # the value side of a store is evaluated before the store: check reads against the state BEFORE this node
+            for a in ast.walk( own ):
+                if isinstance( a, ast.Attribute ) and dotted( a.value ) == 'self' and a.attr in decoders and isinstance( a.ctx, ast.Load ) and state[nd]:
+                    bad = True
+                    res.bad( src, a, 'Connection.%s: self.%s read after %s was changed alone' % ( f.name, a.attr, ' and '.join( '_' + x.upper() if x == 'ncp' else '_' + x for x in sorted( state[nd] ))),
+                             'the stored parameter word is decoded with the masks and shifts of the OTHER size class: a small NCP read as large (or vice versa) yields a different connection type, priority and size, and the re-encoded word no longer describes the connection', func='Connection.' + f.name )
+        ex = state.get( cfg.exit, frozenset())
+        if ex:
+            bad = True
+            res.bad( src, f, 'Connection.%s leaves ( _NCP, _large ) half-updated: only %s stored on some path' % ( f.name, sorted( ex )),
+                     'the parameter word and its size class must change together', func='Connection.' + f.name )
+        if not bad:
+            res.ok( src, f, 'Connection.%s: no decoding property is read between the stores of _NCP and _large, and both are stored on every path that stores one' % f.name )
+    if n < 1:
+        raise AnalysisError( 'defaults.Connection: no method storing _NCP / _large found' )
+    res.ok( src, cd, 'decoding readers of ( _NCP, _large ): %s' % sorted( decoders ), nontrivial=False )
     return res
